@@ -754,3 +754,37 @@ def iter5(cfg):
     res.floor('traversal functions', 8)
     res.floor('seek functions', 4)
     return res
+
+
+def vis1(cfg):
+    """VIS-1: what a scan hands to its visitor is the key and the value of the leaf the iterator stands on"""
+    from .point import xsig, _inits
+    res = RuleResult('VIS-1', 'a scan delivers the entry it stands on: visitor::get_key / get_value forward to the iterator\'s get_key / get_val, and those return the key view resp. the value view of the leaf on top of the iterator stack (the OLC iterator wraps the value view in a qsbr_ptr_span) - nothing else')
+    for f in cfg.functions:
+        if not f.blocks:
+            continue
+        rets = None
+        want = None
+        if f.cls.startswith('unodb::visitor<') and f.short in ('get_key', 'get_value'):
+            want = ('this.it.get_key()',) if f.short == 'get_key' else ('this.it.get_val()',)
+        elif ITER_CLS.match(f.cls) and f.short in ('get_key', 'get_val'):
+            want = ('leaf.get_key_view()',) if f.short == 'get_key' else ('leaf.get_value_view()', 'qsbr_ptr_span(leaf.get_value_view())')
+        if want is None:
+            continue
+        res.count('accessors')
+        res.functions.add(f.sig)
+        inits = _inits(f)
+        rets = [xsig(f, e['e']) for b, i, e in f.elements() if e.get('k') == 'return' and e.get('e') is not None]
+        ok = len(rets) == 1 and rets[0] in want
+        # the leaf must be the node of the top stack entry
+        if ok and want[0].startswith('leaf.'):
+            leafvar = [v for b, i, e in f.elements() if e.get('k') == 'decl' for v in e['vars'] if v.get('name') == 'leaf' and 'init' in v]
+            src = xsig(f, leafvar[0]['init'], inits) if leafvar else ''
+            if 'top()' not in src or '.node' not in src:
+                ok = False
+                rets = rets + ['leaf = ' + src[:80]]
+        res.ob(ok, {'rule': 'VIS-1', 'function': sh(f.name)[:90], 'returns': rets, 'verdict': 'discharged' if ok else 'VIOLATION'})
+        if not ok:
+            res.find(f, f.loc, '%s returns %s, expected %s of the leaf on top of the iterator stack: the scan would show its visitor a key / value that is not the entry it stands on' % (sh(f.name)[:70], rets, ' or '.join(want)), key='VIS-1:%s:%s' % ('visitor' if f.cls.startswith('unodb::visitor<') else 'iterator', f.short), config=cfg.name)
+    res.floor('accessors', 16)
+    return res
